@@ -13,7 +13,8 @@ RULE = ("E2: breadth-first search over call histories on the real code (5 classe
         "alphabet of 257 calls under the default and limit_sigma models, reduced alphabet of 127 under tau=0 and tau=2beta [thorough: full "
         "everywhere]; depth 2, thorough adds depth 3 on the reduced alphabet); on every transition I1 (model "
         "snapshot unchanged) and I2 (bit-identical to the same call on a fresh model and fresh ratings with the same "
-        "values, other ids and names). E3: every schedule with <= b preemptions of harnesses H1-H7 (2-3 threads sharing "
+        "values, other ids and names; the same again with every rating carrying one id), I8 (a valid call leaves its teams / ranks / scores containers unchanged, so a "
+        "caller that re-uses them gets answers independent of the earlier call). E3: every schedule with <= b preemptions of harnesses H1-H7 (2-3 threads sharing "
         "one model) at source-line and opcode granularity; each thread's result must be bit-identical to its solo result. "
         "Re-entrancy: every inner call executed inside every gamma invocation of every outer rate() on the same model. "
         "Seeds: the same exploration re-run under PYTHONHASHSEED in {0,1,2^32-1,VERIF_SEED} with different rating ids; "
@@ -24,7 +25,7 @@ ASSUMPTIONS = [
     "rating ids come from uuid.uuid4, which the harness replaces by a counter (deterministic replay); ids are never part of an observation",
     "conflict census assumes the shared domain = model.__dict__ (depth 4) + module globals / class attributes / function defaults / functools caches",
 ]
-INVS = ("I1", "I2", "R7")
+INVS = ("I1", "I2", "I8", "R7")
 
 
 def e3_plan(ctx):
@@ -176,7 +177,12 @@ def replay(case):
     raise core.HarnessError(f"unknown engine {eng}")
 
 
+def pre_import():
+    e3.install_lock_shim()
+
+
 def main(ctx, t0):
+    e3.install_lock_shim()
     core.deterministic_ids(0)
     procs = seed_runs_start(ctx)
     # ---- E2
